@@ -34,15 +34,19 @@ def pick(stacks, n):
 def shards_for(ctx, chosen, flavour, primary, defines=()):
     sh = zoorun.make_shards(ctx, chosen, "zio::drive_c08<{Z}>();", "faults", flavour=flavour, extra_include="zoo_io.hpp",
                             per_shard=max(1, (len(chosen) + 15) // 16), primary=primary, defines=defines)
-    # ordered pairs of stacks whose on-disk signatures differ: the reader must reject the writer's file
-    pairs = [(a, b) for a in range(len(chosen)) for b in range(len(chosen))
-             if a != b and chosen[a].io_signature() != chosen[b].io_signature()]
-    per = 60
-    for i in range(0, len(pairs), per):
-        calls = ["zio::drive_c08_pair<Z%d, Z%d>();" % (a, b) for a, b in pairs[i:i + per]]
-        src = zoo.translation_unit(chosen, 0, "zoo_io.hpp", None, extra_calls=calls)
-        sh.append(dict(name="pairs/batch%d/%s" % (i // per, flavour), src=src, is_text=True, flavour=flavour, primary=primary, defines=list(defines)))
-    return sh, len(pairs)
+    # ordered pairs of stacks whose on-disk signatures differ: the reader must reject the writer's file.
+    # Stacks are grouped by twelve; every ordered pair inside a group is offered (a translation unit holds one group).
+    npairs = 0
+    for g in range(0, len(chosen), 12):
+        grp = chosen[g:g + 12]
+        pairs = [(a, b) for a in range(len(grp)) for b in range(len(grp)) if a != b and grp[a].io_signature() != grp[b].io_signature()]
+        npairs += len(pairs)
+        per = 66
+        for i in range(0, len(pairs), per):
+            calls = ["zio::drive_c08_pair<Z%d, Z%d>();" % (a, b) for a, b in pairs[i:i + per]]
+            src = zoo.translation_unit(grp, 0, "zoo_io.hpp", None, extra_calls=calls)
+            sh.append(dict(name="pairs/group%d.%d/%s" % (g // 12, i // per, flavour), src=src, is_text=True, flavour=flavour, primary=primary, defines=list(defines)))
+    return sh, npairs
 
 
 def run(ctx):
